@@ -17,7 +17,7 @@ PLAN["C10"] = {
     "feature": "c10",
     "exhaustive": False,
     "bounds": "arbitrary placements with at most u men per kind and colour (quick u = 2, thorough u = 3: up to 32 men, never more "
-              "than three alike); symbolic target square; <= 3 queries/clones before a fourth query (<= 1 man per kind); "
+              "than three alike); symbolic target square; programs [clone] q1 [clone] q2 q2 over symbolic queries (<= 1 man per kind); "
               "piece_at lemma: no bound",
     "outside": ["more than u men of one kind and colour (e.g. eight pawns)"],
     "trusted": ["rustc / kani-compiler / CBMC", "square-centric reference attacked_ref (harness/common/rules.rs)"],
@@ -31,7 +31,7 @@ PLAN["C10"] = {
              bounds="arbitrary placement, symbolic square; no bound"),
         Inst("c10::order_and_clone_independence", sub="C10.b", unwind=8, unwindset=(("from_occupancy#0", 3),), timeout=1800, mem_gb=16,
              functions=_c10_fn + ("<Board as Clone>::clone", "<Board as PartialEq>::eq"), stubs=GEO_STUBS,
-             bounds="<= 1 man per kind and colour; 3 symbolic steps from {4 attack-set queries, 2 check queries, clone-and-continue}, then a symbolic query"),
+             bounds="<= 1 man per kind and colour; program [clone] q1 [clone] q2 q2 with symbolic queries q1, q2 from {4 attack-set queries, 2 check queries} and symbolic clone points"),
         Inst("c10::reach_witness", sub="vacuity", unwind=8, unwindset=(("from_occupancy#0", 3),), timeout=600, expect="fail"),
     ],
 }
@@ -67,8 +67,8 @@ PLAN["C14"] = {
     "feature": "c14",
     "exhaustive": False,
     "bounds": "SAN: every valid UTF-8 string of <= 6 bytes (quick) / <= 8 bytes (thorough); Square::try_from: <= 4 bytes; FEN: the "
-              "field parsers behind the regex gate on every input the gate admits, placement <= 24 bytes (quick) / <= 48 bytes "
-              "(thorough), castling field <= 4 bytes",
+              "field parsers behind the regex gate on every input the gate admits, placement = a concrete run of 31 (resp. 7) eights followed by every symbolic "
+              "tail <= 16 (18) bytes (quick); every placement <= 24 / <= 48 bytes and 54-byte digit floods (thorough); castling field <= 4 bytes",
     "outside": ["the UCI command loop (Client::exec owns stdin and spawns threads)", "the regex gate itself (Regex::new at run time)",
                 "longer strings"],
     "trusted": ["rustc / kani-compiler / CBMC", "regex crate: only strings matching FEN_REGEX reach the field parsers"],
@@ -78,12 +78,18 @@ PLAN["C14"] = {
         Inst("c14::san_any_string_le6", sub="C14 SAN", unwind=9, timeout=1800, mem_gb=8, functions=_c14_fn, bounds="all valid UTF-8 strings <= 6 bytes"),
         Inst("c14::san_any_string_le8", sub="C14 SAN", tiers=("thorough",), unwind=11, timeout=7200, mem_gb=16, functions=_c14_fn, bounds="all valid UTF-8 strings <= 8 bytes"),
         Inst("c14::square_any_string_le4", sub="C14 square", unwind=7, timeout=600, functions=("Square::try_from(&str)", "File::from_char", "Rank::from_char"), bounds="all valid UTF-8 strings <= 4 bytes"),
-        Inst("c14::fen_placement_le24", sub="C14 FEN", unwind=26, unwindset=(("Board as core::convert::From", 66), ("from_rS", 66)), timeout=3600, mem_gb=12,
+        Inst("c14::fen_placement_flood31_tail16", sub="C14 FEN", unwind=50, unwindset=(("Board as core::convert::From", 66), ("fen_placement_after_flood", 18)), timeout=3600, mem_gb=12,
+             functions=("Board::try_parse (via hook)", "PieceIndex::try_parse", "Board::from(&ArrayMap)", "Square::try_from(u8)"),
+             bounds="thirty-one '8's followed by every tail <= 16 bytes over the regex alphabet with 7 slashes"),
+        Inst("c14::fen_placement_flood7_tail18", sub="C14 FEN", unwind=28, unwindset=(("Board as core::convert::From", 66), ("fen_placement_after_flood", 20)), timeout=3600, mem_gb=12,
+             functions=("Board::try_parse (via hook)", "PieceIndex::try_parse", "Board::from(&ArrayMap)", "Square::try_from(u8)"),
+             bounds="seven '8's followed by every tail <= 18 bytes over the regex alphabet with 7 slashes"),
+        Inst("c14::fen_placement_le24", sub="C14 FEN", tiers=("thorough",), unwind=26, unwindset=(("Board as core::convert::From", 66), ("from_rS", 66)), timeout=3600, mem_gb=12,
              functions=("Board::try_parse (via hook)", "PieceIndex::try_parse", "Board::from(&ArrayMap)", "Square::try_from(u8)"), bounds="placement fields <= 24 bytes over the regex alphabet, 7 slashes"),
         Inst("c14::fen_placement_le48", sub="C14 FEN", tiers=("thorough",), unwind=50, unwindset=(("Board as core::convert::From", 66),), timeout=7200, mem_gb=16,
              functions=("Board::try_parse (via hook)", "PieceIndex::try_parse", "Board::from(&ArrayMap)", "Square::try_from(u8)"), bounds="placement fields <= 48 bytes over the regex alphabet, 7 slashes"),
-        Inst("c14::fen_placement_digit_flood_le48", sub="C14 FEN", unwind=50, unwindset=(("Board as core::convert::From", 66), ("from_utf8", 50)), timeout=3600, mem_gb=12,
-             functions=("Board::try_parse (via hook)", "Board::from(&ArrayMap)"), bounds="placement fields <= 48 bytes made of digits 1-8 and 7 slashes"),
+        Inst("c14::fen_placement_digit_flood", sub="C14 FEN", tiers=("thorough",), unwind=56, unwindset=(("Board as core::convert::From", 66),), timeout=3600, mem_gb=12,
+             functions=("Board::try_parse (via hook)", "Board::from(&ArrayMap)"), bounds="54-byte placement fields: a run of 40 digits then seven one-digit ranks, all digits symbolic"),
         Inst("c14::fen_castle_field", sub="C14 FEN", unwind=7, timeout=600, functions=("ArrayMap<Color, CastleRights>::try_parse (via hook)",), bounds="castling fields <= 4 bytes of [KQkq|]"),
         Inst("c14::reach_witness", sub="vacuity", unwind=7, timeout=600, expect="fail"),
     ],
@@ -321,22 +327,22 @@ _c08_fn = ("ZobristHasher::with", "ZobristHasher::hash", "ArrayMap::from_fn", "B
 _c08_us = (("family", 7), ("ZobristHasher4hash#0", 4), ("ZobristHasher4hash#1", 9), ("ZobristHasher4hash#2", 4))
 
 
-def _c08_inst(name, sub, tiers=("quick", "thorough"), timeout=3600, mem=12, bounds=""):
-    return Inst("c08::" + name, sub=sub, tiers=tiers, unwind=66, unwindset=_c08_us, nomem=True, timeout=timeout, mem_gb=mem, functions=_c08_fn, bounds=bounds)
+def _c08_inst(name, sub, tiers=("quick", "thorough"), timeout=3600, mem=12, bounds="", extra=()):
+    return Inst("c08::" + name, sub=sub, tiers=tiers, unwind=66, unwindset=_c08_us, nomem=True, timeout=timeout, mem_gb=mem, functions=_c08_fn, bounds=bounds, extra=extra)
 
 
 PLAN["C08"] = {
     "feature": "c08",
     "exhaustive": False,
-    "bounds": "equality half: all key tables (1026 arbitrary keys), the family K+P vs k+p with symbolic squares/ep and arbitrary counters; transposition of two knight moves "
-              "around a king move; separation half: key tables from splitmix64(VERIF_SEED) (two independent tables), families of kings + 3..4 men (concrete kinds, symbolic squares), pairs differing in side / one castling right / en-passant availability / one move's worth of placement",
+    "bounds": "equality half: all key tables (1026 arbitrary keys), the family K+P vs k+p with symbolic squares/ep and arbitrary counters; a position reached by two real moves vs set up directly; separation half: key tables from splitmix64(VERIF_SEED) (two independent tables), families of kings + 3..4 men (concrete kinds, symbolic squares), pairs differing in side / one castling right / en-passant availability / one move's worth of placement",
     "outside": ["pairs differing in more than four placement incidences (any 65 keys are linearly dependent over GF(2): far-apart colliding pairs exist under every seed)",
                 "the ChaCha8 generator itself (keys are taken from a generic Rng)"],
     "trusted": ["rustc / kani-compiler / CBMC"],
     "assumptions": ["a failure of the separation half must reproduce under two independent key tables to count (2^-64 coincidences are not defects)"],
     "insts": [
-        _c08_inst("equal_positions_hash_equal", "C08.a", bounds="all key tables (1026 arbitrary keys); K+P vs k+p, symbolic squares, ep target and counters"),
-        _c08_inst("transposition_hashes_equal", "C08.a", bounds="seeded keys; K+N+N vs k, two knight moves around a king move, all squares"),
+        _c08_inst("equal_positions_hash_equal", "C08.a", bounds="all key tables (1026 arbitrary keys); K+P vs k+p, symbolic squares, ep target and counters",
+                  extra=("--no-array-field-sensitivity",)),
+        _c08_inst("reached_and_constructed_hash_equal", "C08.a", bounds="seeded keys; K+N vs k: knight move and king step by the real successor function vs the same position set up directly, all squares, arbitrary counters"),
         _c08_inst("separates_side_to_move", "C08.b", bounds="seeded keys; K+Q vs k+n+p; pair differs in side to move"),
         _c08_inst("separates_castling_rights", "C08.b", bounds="seeded keys; K+R+R vs k+r+r; pair differs in exactly one castling right"),
         _c08_inst("separates_en_passant_availability", "C08.b", bounds="seeded keys; K+P+N vs k+p; pair differs in an available en-passant capture"),
